@@ -89,6 +89,17 @@ func init() {
 					fs.WriteFile(p, []byte(strings.Replace(string(b), "resources:\n", "resources:\n- ../cfgonly\n", 1)))
 				}
 			}
+			if t.PostWrite == nil && r.Intn(4) == 0 {
+				// a Component (its own resource, an annotation for everything accumulated so far, a generator that merges
+				// into nothing) used by one layer: part of the tree that is wrapped, moved and permuted
+				li := r.Intn(len(t.Layers))
+				t.Layers[li].Kust["components"] = []interface{}{"../comp1"}
+				t.PostWrite = func(fs filesys.FileSystem, root string) {
+					fs.MkdirAll(root + "/comp1")
+					fs.WriteFile(root+"/comp1/kustomization.yaml", []byte("apiVersion: kustomize.config.k8s.io/v1alpha1\nkind: Component\nresources:\n- extra.yaml\ncommonAnnotations:\n  fromcomp: \"yes\"\nconfigMapGenerator:\n- name: comp-cm\n  literals:\n  - c=d\n"))
+					fs.WriteFile(root+"/comp1/extra.yaml", []byte("apiVersion: v1\nkind: ConfigMap\nmetadata:\n  name: comp-extra\ndata:\n  k: v\n"))
+				}
+			}
 			fs := filesys.MakeFsInMemory()
 			t.Write(fs, "/w")
 			base, err, pnc := safeBuild(func() (string, error) { return runBuild(fs, t.TopDir("/w"), nil) })
